@@ -643,6 +643,17 @@ func ruleV8(r *Run) {
 						continue
 					}
 					nStores++
+					// *p = *sharedPointer: a shallow copy of a package-level object whose type holds slices, maps or
+					// pointers shares those with every other copy
+					if se, ok := ast.Unparen(as.Rhs[i]).(*ast.StarExpr); ok {
+						if o, shared := isSharedRef(se.X); shared {
+							if pt, ok := o.Type().Underlying().(*types.Pointer); ok && holdsReferences(pt.Elem(), 0) {
+								perFn++
+								nBad++
+								r.Viol(fmt.Sprintf("shallow copy of the shared object %s stored as decoded value in %s #%d", o.Name(), p.DeclName(fd), perFn), as.Pos(), fmt.Sprintf("the destination receives `*%s`, a shallow copy of the package-level %s: the slices inside it (the digits of a big number) are shared with every other value decoded this way, so a caller that changes its own decoded value in place changes what all later decodes return, and two goroutines doing so race", o.Name(), o.Type()))
+							}
+						}
+					}
 					if o, shared := isSharedRef(as.Rhs[i]); shared {
 						perFn++
 						nBad++
@@ -657,4 +668,24 @@ func ruleV8(r *Run) {
 	if nStores < 100 {
 		r.Undec("destination stores", 0, fmt.Sprintf("only %d stores through destination pointers found (expected more than 100)", nStores))
 	}
+}
+
+// holdsReferences: values of the type contain slices, maps or pointers (directly or in struct / array members)
+func holdsReferences(t types.Type, depth int) bool {
+	if depth > 4 {
+		return true
+	}
+	switch u := t.Underlying().(type) {
+	case *types.Slice, *types.Map, *types.Pointer, *types.Chan:
+		return true
+	case *types.Struct:
+		for i := 0; i < u.NumFields(); i++ {
+			if holdsReferences(u.Field(i).Type(), depth+1) {
+				return true
+			}
+		}
+	case *types.Array:
+		return holdsReferences(u.Elem(), depth+1)
+	}
+	return false
 }
